@@ -66,7 +66,13 @@ pub fn explore<T, A>(
             ctx.violation("MACHINERY:divergence", &prefix, d.clone(), "", "", vec![]);
             continue;
         }
+        ctx.prune_children = false;
         check(ctx, &x, &aux);
+        if ctx.prune_children {
+            ctx.prune_children = false;
+            ctx.note("subtrees_below_a_violating_execution_not_expanded", 1);
+            continue;
+        }
         // expand
         let mut devs = x.points[.. prefix.len().min(x.points.len())]
             .iter()
